@@ -40,7 +40,11 @@ RULE = ('random operator expressions (depth <= 4 quick, <= 5 thorough) over Spar
         'unchanged afterwards; a share of ill-shaped expressions checks the errors (same exception class required); '
         'exhaustive 0/1 matrices of shape <= 2x2 for every leaf class; zero-sized dimensions and 2-d arrays without columns; '
         'the six classes on csc / coo / lil matrices and normalize / get_norms / get_laplacian / get_weights on csc / coo '
-        'matrices; not generated: op ** k, products of two operators (op * op, op.dot(op)); '
+        'matrices; magnitudes far from 1: the pseudo-inverse on weights in 1e-12 .. 1e-7 and 1e+7 .. 1e+12 next to zeros and '
+        'weights of order 1, every matrix rescaled by factors 1e-12 .. 1e+12 with normalize / get_tfidf / Normalizer(kA, k reg) / '
+        'the normalised Laplacian / CoNeighbor judged by the lines of the unscaled matrix (scale invariance, exact over Q), and '
+        'matrices with one weakly attached node (weights 2e-9 next to weights of order 1); '
+        'not generated: op ** k, products of two operators (op * op, op.dot(op)); '
         'programs (DAGs) over operator OBJECTS of all six classes in which the same object takes part in several operations '
         '(sum, difference, both scalings, negation, transposition, sparse products, astype, conversions) and is used again: '
         'after every statement the operands and the result are re-evaluated against their own denotation ("operand unchanged"); '
@@ -1529,6 +1533,108 @@ def cases_csr_utils(ctx, rng, a, full=True):
     return out
 
 
+# magnitudes far from 1: no weight is "numerically null" (the pseudo-inverse of diag(w) is 1/w for every w != 0)
+SCALES = [1e-9, 1e-12, 3e-8, 2.0 ** -30, 2.0 ** -40, 1e8, 1e12, 2.0 ** 30, 2.0 ** 40]
+
+
+def cases_pinv_magnitudes(ctx, rng):
+    """diagonal_pseudo_inverse on weights in 1e-12 .. 1e-7 and 1e+7 .. 1e+12, mixed with zeros and weights of order 1
+    (PinvSpec is multiplicative: out * w = 1 for every w != 0, whatever its size)."""
+    out = [case_pinv([1e-9, 1.0, 0.0, -2e-9]), case_pinv([1e-12, 1e12, 5e-8, 1e-7]), case_pinv([2.0 ** -40, 2.0 ** 40, 0.0])]
+    for _ in range(6):
+        n = rng.randint(1, 6)
+        w = [rng.choice([0.0, 1.0, 2.0, -3.0, rng.choice([1, 2, 5, -4]) * 10.0 ** rng.choice([-12, -10, -9, -8, -7, 7, 9, 12])])
+             for _ in range(n)]
+        out.append(case_pinv(w))
+    return out
+
+
+def weak_node(rng, a):
+    """The matrix with one weakly attached node: the stored entries of one non-empty row (and of the matching column of a
+    square matrix) become weights of 2e-9 next to weights of order 1."""
+    b = sparse.lil_matrix(a.astype(float))
+    rows = [i for i in range(a.shape[0]) if a[i].nnz]
+    if not rows or (a.data < 0).any():
+        return None                     # signed weights: 2e-9 - 1 + 1 is a cancellation, not a weak attachment
+    i = rng.choice(rows)
+    for j in a[i].indices:
+        b[i, j] = 2e-9
+    if a.shape[0] == a.shape[1]:
+        for k in a[:, i].nonzero()[0]:
+            b[k, i] = 2e-9
+    b = b.tocsr()
+    b.sort_indices()
+    return b
+
+
+def cases_scaled(ctx, rng, a, ks=None, reg=None, x=None, only=None):
+    """Scale invariance (exact over Q, C15.normalize_scale_invariant / normalizer_scale_invariant): the implementation runs
+    on k * A, the run and spec lines are those of A.  normalize (p = 1, 2), get_tfidf, Normalizer(kA, k reg), the normalised
+    Laplacian(kA, k reg), CoNeighbor(kA) applied to x / k (k a power of two)."""
+    from sknetwork.linalg import normalize, Normalizer, Laplacian, CoNeighbor
+    from sknetwork.utils.tfidf import get_tfidf
+    import math
+    out = []
+    r, c = a.shape
+    a = a.astype(float)
+    am, md, nt = enc_mat(a), mat_desc(a), a.nnz > 0
+    ks = ks if ks is not None else rng.sample(SCALES, 3)
+    reg = reg if reg is not None else rng.choice([0, 0, 1, 0.5])
+    x = np.asarray(x, dtype=float) if x is not None else rand_vec(rng, c, 'int', dtype='float64')
+    sq2 = np.sqrt((a.multiply(a)).dot(np.ones(c))) if c else np.zeros(r)
+    table = [math.log(r / f) for f in range(1, r + 1)]
+
+    def add(what, k, run, impl, spec, canon, nontriv=nt):
+        if only is None or only == what:
+            out.append(Case(('scaled', what, am, repr(k), enc_rat(frac(reg)), enc_vec(x)),
+                            {'entry': what, 'scaled': True}, run, impl, spec, nontriv,
+                            {'f': 'scaled', 'what': what, 'matrix': md, 'factor': k, 'reg': float(reg), 'x': [float(v) for v in x]},
+                            canon=canon))
+    ones = np.ones(c)
+    # a row whose weights cancel exactly (sum + reg = 0) stays exactly null only under an exact rescaling (DESIGN 8: discrete
+    # decision `weight == 0` on a rounded number): the Normalizer of such a matrix is rescaled by powers of two only
+    cancels = bool(np.any((a.dot(ones) + reg == 0) & (abs(a).dot(ones) + abs(reg) > 0))) if c else False
+    for k in ks:
+        b = a * k
+        exact_k = math.log2(k) == int(math.log2(k))
+        impl = _call(lambda: _ok_mat(sparse.csr_matrix(normalize(b.copy(), p=1)).toarray()))
+        add('normalize', k, 'c15.normalize %s 1 -' % am, impl, _spec_norm1(am, impl), 'mat')
+        impl = _call(lambda: _ok_mat(normalize(b.copy(), p=2).toarray()))
+        add('normalize-p2', k, 'c15.normalize %s 2 %s' % (am, enc_vec(sq2)), impl, _spec_norm2(am, impl), 'mat')
+        impl = _call(lambda: _ok_mat(sparse.csr_matrix(get_tfidf(b.copy())).toarray()))
+        add('get_tfidf', k, 'c15.tfidf %s %s' % (am, enc_vec(table)), impl, _spec_def('c15.spec_tfidf', am + ' ' + enc_vec(table), impl), 'mat')
+        if c > 0 and (exact_k or not cancels):
+            tree = ('nrm', a, reg)
+            for q, T in (('dot', False), ('T.dot', True)):
+                xv = x if not T else rand_vec(random_like(x, r), r, 'int', dtype='float64')
+                impl = _call(lambda: _ok_vec((Normalizer(b.copy(), reg * k).T if T else Normalizer(b.copy(), reg * k)).dot(xv)))
+                et = ('T ' if T else '') + enc_expr(tree)
+                spec = 'c15.spec_dot %s %s %s %s' % (et, enc_vec(xv), impl[3:], TOL_TOK) if impl.startswith('ok ') else None
+                add('Normalizer.' + q, k, 'c15.dot %s %s' % (et, enc_vec(xv)), impl, spec, 'vec')
+        if r == c and r > 0 and np.all(a.dot(np.ones(c)) + reg > 0):
+            tree = ('lap', a, reg, True)
+            impl = _call(lambda: _ok_vec(Laplacian(b.copy(), reg * k, True).dot(x)))
+            et = enc_expr(tree)
+            spec = 'c15.spec_dot %s %s %s %s' % (et, enc_vec(x), impl[3:], TOL_TOK) if impl.startswith('ok ') else None
+            add('Laplacian.normalized', k, 'c15.dot %s %s' % (et, enc_vec(x)), impl, spec, 'vec')
+        if nt and exact_k:
+            tree = ('con', a, True)
+            xr = rand_vec(random_like(x, r), r, 'int', dtype='float64')
+            impl = _call(lambda: _ok_vec(CoNeighbor(b.copy(), True).dot(xr / k)))
+            et = enc_expr(tree)
+            spec = 'c15.spec_dot %s %s %s %s' % (et, enc_vec(xr), impl[3:], TOL_TOK) if impl.startswith('ok ') else None
+            add('CoNeighbor.normalized', k, 'c15.dot %s %s' % (et, enc_vec(xr)), impl, spec, 'vec')
+        if only is None:
+            out.append(case_pinv(b.dot(np.ones(c)), nt))
+    return out
+
+
+def random_like(x, n):
+    """A generator determined by the stored probe (the replay rebuilds the same second probe)."""
+    import random
+    return random.Random(repr([float(v) for v in x]) + ':%d' % n)
+
+
 FORMATS = ('csc', 'coo', 'lil')
 
 
@@ -1948,6 +2054,27 @@ def build_cases(ctx):
         cases += cases_matrix_utils(ctx, rng, a, full=not quick or rng.random() < 0.3)
         cases += cases_csr_utils(ctx, rng, a, full=not quick or rng.random() < 0.3)
         ctx.count('utils:matrix')
+    # (d'') magnitudes far from 1: rescaled matrices against the lines of the unscaled matrix, a weakly attached node,
+    #       pseudo-inverse of tiny and huge weights
+    cases += cases_pinv_magnitudes(ctx, rng)
+    fixed = sparse.csr_matrix(np.array([[0., 1., 1., 0.], [1., 0., 1., 1.], [1., 1., 0., 0.], [0., 1., 0., 0.]]))
+    cases += cases_scaled(ctx, rng, fixed, ks=[1e-9, 2.0 ** -40, 1e12], reg=0)
+    for i in range(25 if quick else 300):
+        r, c = (rand_dim(rng, 2, 5),) * 2 if rng.random() < 0.6 else (rand_dim(rng), rand_dim(rng))
+        a = rand_matrix(rng, r, c, mode=rng.choice(['nonneg', 'nonneg', 'binary', 'signed']), dtype='float64')
+        if not a.nnz:
+            continue
+        cases += cases_scaled(ctx, rng, a)
+        ctx.count('magnitudes:rescaled-matrix')
+        w = weak_node(rng, a)
+        if w is not None:
+            cases += cases_matrix_utils(ctx, rng, w, full=False)
+            leaves = [('nrm', w, 0), ('nrm', w, 1e-9), ('con', _no_hidden_zero(w), True)]
+            if r == c and np.all(w.dot(np.ones(c)) > 0):
+                leaves.append(('lap', w, 0, True))
+            for leaf in leaves:
+                cases += cases_for_expr(ctx, rng, leaf, full=False)
+            ctx.count('magnitudes:weakly-attached-node')
     # (d') the same entry points on csc / coo / lil matrices
     for i in range(12 if quick else 150):
         r, c = (rand_dim(rng),) * 2 if rng.random() < 0.6 else (rand_dim(rng), rand_dim(rng))
@@ -2198,6 +2325,9 @@ def cases_from_payload(ctx, case, rng=None):
     if f in ('normalize', 'get_norms', 'get_laplacian', 'directed2undirected',
              'bipartite2directed', 'bipartite2undirected', 'get_tfidf') and 'matrix' in case:
         return cases_matrix_utils(ctx, rng, mat_from_desc(case['matrix']), full=True)
+    if f == 'scaled':
+        return cases_scaled(ctx, rng, mat_from_desc(case['matrix']), ks=[case['factor']], reg=case['reg'], x=case['x'],
+                            only=case['what'])
     if f == 'format-utils':
         m_ = mat_from_desc(case['matrix'])
         return [c_ for c_ in cases_formats(ctx, rng, m_.tocsr()) if c_.sig.get('format') == m_.format]
